@@ -1515,7 +1515,7 @@ pub fn run_random(opts: &Opts, rep: &mut Report, props: &[&str]) {
                     label = "update_config".into();
                 }
                 61..=81 => {
-                    let timeout = *rng.pick(&[0u64, 0, 1, 5, 10, 50]);
+                    let timeout = *rng.pick(&[0u64, 0, 1, 5, 10, 50, 50, u64::MAX, 1 << 40]);
                     let inflight = held.iter().filter(|h| h.in_flight.load(Ordering::SeqCst)).count();
                     let st = w.tick(timeout);
                     rep.count("ticks");
